@@ -348,7 +348,11 @@ class C06Engine(Engine):
             d = model.lookup(t.ns, t.name)
             if isinstance(d, Struct) and d.subtypes:
                 tkind = 'tree'
-            value = refcodec.gen_value(tape, model, t)
+            try:
+                value = refcodec.gen_value(tape, model, t)
+            except refcodec.Uninhabitable:
+                bump(res['probes'], 'uninhabitable_type_skipped')
+                continue
             if value is None and not (isinstance(d, Alias) and model.unwrap(d.type)[1]):
                 continue
             strict = bool(tape.draw(2))
